@@ -175,6 +175,15 @@ func (e *TCPEnv) svcConfig() *service.Config {
 	return cfg
 }
 
+// SvcConfigVariant: the service configuration with the idle timeout lengthened by k milliseconds and nothing else
+// changed (what a configuration update that does not touch policy, health check or listener looks like).
+func (e *TCPEnv) SvcConfigVariant(k int) *service.Config {
+	cfg := e.svcConfig()
+	it := *cfg.IdleTimeout + time.Duration(k)*time.Millisecond
+	cfg.IdleTimeout = &it
+	return cfg
+}
+
 func (e *TCPEnv) Start() {
 	e.SvcCfg = e.svcConfig()
 	var hs []*host.Host
